@@ -273,6 +273,7 @@ void muggle_ma_ring_thread_ctx_cleanup()
 
 		muggle_ma_ring_remove_thread_ctx(s_muggle_ma_ring_thread_ctx);
 
+		free(s_muggle_ma_ring_thread_ctx->buffer);
 		free(s_muggle_ma_ring_thread_ctx);
 		s_muggle_ma_ring_thread_ctx = NULL;
 	}
